@@ -113,7 +113,7 @@ impl Sim for SimHandle {
         }
         let key = format!("{}:{}", short(site.file), site.line);
         *c.stats.rng_draws_by_site.entry(key).or_insert(0) += 1;
-        c.dec.draw64("rng")
+        c.dec.draw_rng("rng")
     }
 
     fn hash_key(&mut self) -> u64 {
